@@ -48,6 +48,8 @@ impl JoinState {
         let mut state = JoinState::Joined;
         mem::swap(self, &mut state);
         if let JoinState::Running(handle) = state {
+            #[cfg(may_verif)]
+            may_queue::verif::point(may_queue::verif::site::SCOPE_JOIN_BEFORE, 0);
             let res = handle.join();
 
             // TODO: when panic happened, the logic need to refine
